@@ -616,6 +616,8 @@ fn cap_u(c: &Capability) -> Val {
         Capability::AG_AIRBORNE => 5,
         Capability::AG_UNCERTAIN2 => 6,
         Capability::AG_UNCERTAIN3 => 7,
+        #[allow(unreachable_patterns)]
+        _ => 9999,
     })
 }
 
@@ -629,6 +631,8 @@ fn fs_u(x: &FlightStatus) -> u64 {
         FlightStatus::NoAlertSPIAirborneGround => 5,
         FlightStatus::Reserved => 6,
         FlightStatus::NotAssigned => 7,
+        #[allow(unreachable_patterns)]
+        _ => 9999,
     }
 }
 
@@ -645,6 +649,8 @@ fn dr_u(x: &DownlinkRequest) -> u64 {
                 *v as u64
             }
         }
+        #[allow(unreachable_patterns)]
+        _ => 9999,
     }
 }
 
@@ -658,6 +664,8 @@ fn um(f: &mut Fields, x: &UtilityMessage) {
             UtilityMessageType::CommB => 1,
             UtilityMessageType::CommC => 2,
             UtilityMessageType::CommD => 3,
+            #[allow(unreachable_patterns)]
+            _ => 9999,
         },
     );
 }
@@ -666,6 +674,8 @@ fn sign_u(x: &Sign) -> u64 {
     match x {
         Sign::Positive => 0,
         Sign::Negative => 1,
+        #[allow(unreachable_patterns)]
+        _ => 9999,
     }
 }
 
@@ -673,6 +683,8 @@ fn cpr_u(x: &CPRFormat) -> u64 {
     match x {
         CPRFormat::Even => 0,
         CPRFormat::Odd => 1,
+        #[allow(unreachable_patterns)]
+        _ => 9999,
     }
 }
 
@@ -687,7 +699,7 @@ pub fn actual(frame: &Frame) -> Fields {
             u(&mut f, "trailer", icao_u(&a.pi));
             me_actual(&a.me, &mut f);
         }
-        DF::AllCallReply { capability, icao, p_icao } => {
+        DF::AllCallReply { capability, icao, p_icao, .. } => {
             s(&mut f, "df", "AllCallReply");
             f.insert("ca".into(), cap_u(capability));
             u(&mut f, "aa", icao_u(icao));
@@ -702,7 +714,7 @@ pub fn actual(frame: &Frame) -> Fields {
             u(&mut f, "alt13", altitude.0 as u64);
             u(&mut f, "trailer", icao_u(parity));
         }
-        DF::SurveillanceAltitudeReply { fs, dr, um: m, ac, ap } => {
+        DF::SurveillanceAltitudeReply { fs, dr, um: m, ac, ap, .. } => {
             s(&mut f, "df", "SurveillanceAltitudeReply");
             u(&mut f, "fs", fs_u(fs));
             u(&mut f, "dr", dr_u(dr));
@@ -710,7 +722,7 @@ pub fn actual(frame: &Frame) -> Fields {
             u(&mut f, "alt13", ac.0 as u64);
             u(&mut f, "trailer", icao_u(ap));
         }
-        DF::SurveillanceIdentityReply { fs, dr, um: m, id, ap } => {
+        DF::SurveillanceIdentityReply { fs, dr, um: m, id, ap, .. } => {
             s(&mut f, "df", "SurveillanceIdentityReply");
             u(&mut f, "fs", fs_u(fs));
             u(&mut f, "dr", dr_u(dr));
@@ -731,7 +743,7 @@ pub fn actual(frame: &Frame) -> Fields {
             }
             u(&mut f, "trailer", icao_u(parity));
         }
-        DF::TisB { cf, pi } => {
+        DF::TisB { cf, pi, .. } => {
             s(&mut f, "df", "TisB");
             let dbg = format!("{cf:?}");
             let t = debug_field(&dbg, "t").unwrap_or_default();
@@ -751,11 +763,11 @@ pub fn actual(frame: &Frame) -> Fields {
             u(&mut f, "trailer", icao_u(pi));
             me_actual(&cf.me, &mut f);
         }
-        DF::ExtendedQuitterMilitaryApplication { af } => {
+        DF::ExtendedQuitterMilitaryApplication { af, .. } => {
             s(&mut f, "df", "ExtendedQuitterMilitaryApplication");
             u(&mut f, "af", *af as u64);
         }
-        DF::CommBAltitudeReply { flight_status, dr, um: m, alt, bds } => {
+        DF::CommBAltitudeReply { flight_status, dr, um: m, alt, bds, .. } => {
             s(&mut f, "df", "CommBAltitudeReply");
             u(&mut f, "fs", fs_u(flight_status));
             u(&mut f, "dr", dr_u(dr));
@@ -763,7 +775,7 @@ pub fn actual(frame: &Frame) -> Fields {
             u(&mut f, "alt13", alt.0 as u64);
             bds_actual(bds, &mut f);
         }
-        DF::CommBIdentityReply { fs, dr, um: m, id, bds, parity } => {
+        DF::CommBIdentityReply { fs, dr, um: m, id, bds, parity, .. } => {
             s(&mut f, "df", "CommBIdentityReply");
             u(&mut f, "fs", fs_u(fs));
             u(&mut f, "dr", dr_u(dr));
@@ -772,7 +784,7 @@ pub fn actual(frame: &Frame) -> Fields {
             bds_actual(bds, &mut f);
             u(&mut f, "trailer", icao_u(parity));
         }
-        DF::ModeSExtendedSquitter { df, capability, icao, type_code, adsb_data, parity } => {
+        DF::ModeSExtendedSquitter { df, capability, icao, type_code, adsb_data, parity, .. } => {
             s(&mut f, "df", "ModeSExtendedSquitter");
             u(&mut f, "dfcode", *df as u64);
             f.insert("ca".into(), cap_u(capability));
@@ -781,6 +793,8 @@ pub fn actual(frame: &Frame) -> Fields {
             u(&mut f, "x.adsb_data", *adsb_data);
             u(&mut f, "trailer", icao_u(parity));
         }
+        #[allow(unreachable_patterns)]
+        _ => s(&mut f, "df", "<new variant>"),
     }
     f
 }
@@ -813,6 +827,8 @@ fn bds_actual(b: &BDS, f: &mut Fields) {
             s(f, "bds.kind", "Unknown");
             u(f, "bds.code", *code as u64);
         }
+        #[allow(unreachable_patterns)]
+        _ => s(f, "bds.kind", "<new variant>"),
     }
 }
 
@@ -826,6 +842,8 @@ fn alt_fields(a: &Altitude, f: &mut Fields) {
             SurveillanceStatus::PermanentAlert => 1,
             SurveillanceStatus::TemporaryAlert => 2,
             SurveillanceStatus::SPICondition => 3,
+            #[allow(unreachable_patterns)]
+            _ => 9999,
         },
     );
     u(f, "me.saf", a.saf_or_imf as u64);
@@ -858,6 +876,8 @@ fn version_u(v: &ADSBVersion) -> u64 {
         ADSBVersion::DOC9871AppendixA => 0,
         ADSBVersion::DOC9871AppendixB => 1,
         ADSBVersion::DOC9871AppendixC => 2,
+        #[allow(unreachable_patterns)]
+        _ => 9999,
     }
 }
 
@@ -878,6 +898,8 @@ pub fn me_actual(me: &ME, f: &mut Fields) {
                     TypeCoding::C => 2,
                     TypeCoding::B => 3,
                     TypeCoding::A => 4,
+                    #[allow(unreachable_patterns)]
+                    _ => 9999,
                 },
             );
             u(f, "me.ca", id.ca as u64);
@@ -892,6 +914,8 @@ pub fn me_actual(me: &ME, f: &mut Fields) {
                 match p.s {
                     StatusForGroundTrack::Invalid => 0,
                     StatusForGroundTrack::Valid => 1,
+                    #[allow(unreachable_patterns)]
+                    _ => 9999,
                 },
             );
             u(f, "me.trk", p.trk as u64);
@@ -935,6 +959,8 @@ pub fn me_actual(me: &ME, f: &mut Fields) {
                     u(f, "me.astype", a.airspeed_type as u64);
                     u(f, "me.as", a.airspeed as u64);
                 }
+                #[allow(unreachable_patterns)]
+                _ => s(f, "me.sub", "<new variant>"),
             }
             u(
                 f,
@@ -942,6 +968,8 @@ pub fn me_actual(me: &ME, f: &mut Fields) {
                 match v.vrate_src {
                     VerticalRateSource::BarometricPressureAltitude => 0,
                     VerticalRateSource::GeometricAltitude => 1,
+                    #[allow(unreachable_patterns)]
+                    _ => 9999,
                 },
             );
             u(f, "me.vrsign", sign_u(&v.vrate_sign));
@@ -970,6 +998,8 @@ pub fn me_actual(me: &ME, f: &mut Fields) {
                     AircraftStatusType::EmergencyPriorityStatus => "EmergencyPriorityStatus",
                     AircraftStatusType::ACASRaBroadcast => "ACASRaBroadcast",
                     AircraftStatusType::Reserved => "Reserved",
+                    #[allow(unreachable_patterns)]
+                    _ => "<new variant>",
                 },
             );
             u(
@@ -984,6 +1014,8 @@ pub fn me_actual(me: &ME, f: &mut Fields) {
                     EmergencyState::UnlawfulInterference => 5,
                     EmergencyState::DownedAircraft => 6,
                     EmergencyState::Reserved2 => 7,
+                    #[allow(unreachable_patterns)]
+                    _ => 9999,
                 },
             );
             u(f, "me.squawk", a.squawk as u64);
@@ -1048,8 +1080,12 @@ pub fn me_actual(me: &ME, f: &mut Fields) {
                     u(f, "me.silsupp", a.sil_supplement as u64);
                 }
                 OperationStatus::Reserved(..) => s(f, "me.os", "Reserved"),
+                #[allow(unreachable_patterns)]
+                _ => s(f, "me.os", "<new variant>"),
             }
         }
+        #[allow(unreachable_patterns)]
+        _ => s(f, "me.kind", "<new variant>"),
     }
 }
 
